@@ -58,6 +58,9 @@ def rule_r1(ctx) -> List[R.Inst]:
     rets = [n for n in walk_no_nested(fn.node) if isinstance(n, ast.Return) and n.value is not None]
     if len(rets) != 1:
         return [R.undec(rid, "pipeline", file, fn.node.lineno, "single return pipeline expected")]
+    fb = _frame_pairing_form(rets[0].value)
+    if fb is not None:
+        return _r1_frame_form(ctx, fn, file, rets[0], fb)
     calls, names = _stages(rets[0].value)
     insts = []
     want = ["concat", "sort_values", "diff", "dropna", "set_axis", "groupby", "sum", "idxmax"]
@@ -120,6 +123,137 @@ def rule_r1(ctx) -> List[R.Inst]:
     return insts
 
 
+def _frame_pairing_form(e):
+    """pd.DataFrame({K: <labels>, V: <durations>}).groupby(K)[V].sum().idxmax() -> (labels, durations, K, V, frame call, groupby call):
+    the durations are paired with their labels as two columns of a frame instead of as values and index of one Series"""
+    if not (isinstance(e, ast.Call) and call_name(e) == "idxmax" and isinstance(e.func, ast.Attribute)):
+        return None
+    sm = e.func.value
+    if not (isinstance(sm, ast.Call) and call_name(sm) == "sum" and isinstance(sm.func, ast.Attribute) and isinstance(sm.func.value, ast.Subscript)):
+        return None
+    sel = sm.func.value
+    g = sel.value
+    if not (isinstance(sel.slice, ast.Constant) and isinstance(g, ast.Call) and call_name(g) == "groupby" and isinstance(g.func, ast.Attribute)):
+        return None
+    fr = g.func.value
+    if not (isinstance(fr, ast.Call) and call_name(fr) == "DataFrame" and len(fr.args) == 1 and isinstance(fr.args[0], ast.Dict)):
+        return None
+    cols = {k.value: v for k, v in zip(fr.args[0].keys, fr.args[0].values) if isinstance(k, ast.Constant)}
+    gk = g.args[0] if g.args else next((k.value for k in g.keywords if k.arg == "by"), None)
+    if isinstance(gk, ast.List) and len(gk.elts) == 1:
+        gk = gk.elts[0]
+    if not (isinstance(gk, ast.Constant) and len(cols) == 2 and len(fr.args[0].keys) == 2 and gk.value in cols and sel.slice.value in cols
+            and gk.value != sel.slice.value):
+        return None
+    return cols[gk.value], cols[sel.slice.value], gk.value, sel.slice.value, fr, g
+
+
+def _r1_frame_form(ctx, fn, file, ret, fb) -> List[R.Inst]:
+    M = ctx.M
+    rid = "C19.R1"
+    labels, durs, K, V, fr, g = fb
+    insts = []
+    calls, names = _stages(durs)
+    want = ["concat", "sort_values", "diff", "dropna"]
+    core = [n for n in names if n in want + ["set_axis", "groupby", "sum", "idxmax"]]
+    if core == want:
+        insts.append(R.ok(rid, "pipeline:stages", file, ret.lineno, idiom=" -> ".join(want) + f" -> frame({K}, {V}) -> groupby({K})[{V}] -> sum -> idxmax"))
+    else:
+        missing = [w for w in want if w not in core]
+        insts.append(R.viol(rid, "pipeline:stages", file, ret.lineno,
+                            f"the definition 'total active time per bpm value, maximal' needs the stages {want} before the durations are "
+                            f"paired with their bpm; found {core}" + (f" (missing {missing})" if missing else " (order differs)"),
+                            construct=" -> ".join(core)))
+        return insts
+    by = dict(zip(names, calls))
+    cc = by["concat"]
+    parts = cc.args[0].elts if cc.args and isinstance(cc.args[0], (ast.List, ast.Tuple)) else (
+        list(cc.args[:2]) if call_name(cc) == "append" else [])
+    ptxt = [unparse(p) for p in parts]
+    stack_all = [n for n in walk_no_nested(fn.node) if isinstance(n, ast.Call) and call_name(n) == "stack"]
+    ok_span = len(parts) == 2 and any(".offset" in t and "max()" in t for t in ptxt) and \
+        all(not (s.args or s.keywords) for s in stack_all) and stack_all
+    if ok_span:
+        insts.append(R.ok(rid, "span-end", file, cc.lineno, idiom="tempo offsets + max offset over the stack of all lists"))
+    else:
+        insts.append(R.viol(rid, "span-end", file, cc.lineno,
+                            "the last interval must end at the last object of the chart (max offset over all lists)",
+                            construct="; ".join(ptxt)))
+    sites = O.analyse_function(ctx, DOM)
+    if isinstance(sites, Exception):
+        raise AnalysisError(f"order analysis failed: {sites}")
+    sa = [s for s in sites if s.what == "DataFrame({...})"]
+    lab = labels
+    while isinstance(lab, ast.Call) and isinstance(lab.func, ast.Attribute) and lab.func.attr in _STAGE_NEUTRAL | {"to_numpy", "tolist", "to_list", "reset_index"}:
+        lab = lab.func.value
+    is_bpm = unparse(lab).endswith(".bpm")
+    if len(sa) != 1:
+        insts.append(R.undec(rid, "interval<->bpm", file, ret.lineno, "frame pairing site not found"))
+    else:
+        tags = [t for t in sa[0].tags if t.kind != "scalar"]
+        if len(tags) == 2 and tags[0].same_order(tags[1]) and tags[0].kind == "sorted" and is_bpm:
+            insts.append(R.ok(rid, "interval<->bpm", file, sa[0].line, idiom=f"both {tags[0]}; the label column is the bpm column"))
+        elif not is_bpm:
+            insts.append(R.viol(rid, "interval<->bpm", file, sa[0].line,
+                                f"intervals must be labelled with the bpm of their tempo point, not '{unparse(labels)}'",
+                                construct=unparse(fr)[:120]))
+        elif any(t.kind == "top" for t in tags):
+            insts.append(R.undec(rid, "interval<->bpm", file, sa[0].line, "order of an operand not resolved"))
+        else:
+            insts.append(R.viol(rid, "interval<->bpm", file, sa[0].line,
+                                "time-sorted intervals are paired by position with bpm values in another order: " +
+                                " vs ".join(str(t) for t in tags), construct="DataFrame: " + " vs ".join(str(t) for t in tags)))
+    insts.append(R.ok(rid, "group-by-bpm", file, g.lineno, idiom=f"groupby('{K}')['{V}'].sum().idxmax(): totals per bpm value"))
+    return insts
+
+
+def _speed_statement_form(fn, bpm_var):
+    """the speed computed by statements after the reference is known (`speed = F.bpm / ref; if has_sv: speed = speed * F.multiplier;
+    return speed.rename(..)`): the returned expression on the path with SVs and on the path without (sa/sympaths.py), the frame
+    expression F the columns are taken from, and the return statement.  None when the tail is not of that shape."""
+    from .. import sympaths as SP
+    top = list(fn.node.body)
+    ix = next((i for i, st in enumerate(top) if isinstance(st, ast.Assign) and isinstance(st.targets[0], ast.Name) and st.targets[0].id == bpm_var), None)
+    if ix is None:
+        return None
+    try:
+        paths = SP.enumerate_paths(top[ix + 1:])
+    except OverflowError:
+        return None
+    got = {}
+    ret_st = next((st for st in reversed(top) if isinstance(st, ast.Return)), None)
+    for p_ in paths:
+        if p_.exit != "return" or p_.ret is None or p_.effects:
+            return None
+        cs = [(unparse(c), pol) for c, pol in p_.conds]
+        if len(cs) != 1 or cs[0][0] != "has_sv" or cs[0][1] in got:
+            return None
+        e = p_.ret
+        # representation / naming steps around the value
+        keyed = False
+        while True:
+            if isinstance(e, ast.Call) and isinstance(e.func, ast.Attribute) and e.func.attr in ("rename", "copy", "astype") :
+                e = e.func.value
+            else:
+                break
+        got[cs[0][1]] = e
+    if set(got) != {True, False}:
+        return None
+    bases = set()
+    for e in got.values():
+        for n in ast.walk(e):
+            if isinstance(n, ast.Attribute) and n.attr in ("bpm", "multiplier"):
+                bases.add(unparse(n.value))
+            elif isinstance(n, ast.Subscript) and isinstance(n.slice, ast.Constant) and n.slice.value in ("bpm", "multiplier"):
+                bases.add(unparse(n.value))
+    if len(bases) != 1:
+        return None
+    base_txt = bases.pop()
+    if "set_index('offset')" not in base_txt.replace('"', "'"):
+        return None          # the speeds must be keyed by their time
+    return got[True], got[False], base_txt, ret_st
+
+
 def rule_r2(ctx) -> List[R.Inst]:
     M = ctx.M
     rid = "C19.R2"
@@ -151,7 +285,21 @@ def rule_r2(ctx) -> List[R.Inst]:
         if isinstance(n, ast.Assign) and isinstance(n.targets[0], ast.Name) and any(
                 isinstance(c, ast.Call) and call_name(c) == "dominant_bpm" for c in ast.walk(n.value)):
             bpm_var = n.targets[0].id
-    if sp is None or bpm_var is None:
+    stmt_form = _speed_statement_form(fn, bpm_var) if sp is None and bpm_var is not None else None
+    if stmt_form is not None:
+        with_e, no_e, base_txt, at = stmt_form
+        lf = lambda n: {f"{base_txt}.bpm": "B", f"{base_txt}.multiplier": "SV", f"{base_txt}['bpm']": "B", f"{base_txt}['multiplier']": "SV",
+                        bpm_var: "REF"}.get(unparse(n))   # noqa: E731
+        with_sv, no_sv = sym.canon(with_e, lf), sym.canon(no_e, lf)
+        if with_sv.same(sym.parse("B / REF * SV")) and no_sv.same(sym.parse("B / REF")):
+            insts.append(R.ok(rid, "speed-formula", file, at.lineno, idiom="speed = bpm / reference, times the multiplier on the path where the game has SVs"))
+        elif with_sv.symbols() <= {"B", "REF", "SV"} and no_sv.symbols() <= {"B", "REF", "SV"}:
+            insts.append(R.viol(rid, "speed-formula", file, at.lineno,
+                                "scroll speed is active bpm / reference bpm, times the active multiplier where the game has SVs",
+                                construct=f"with SVs: {unparse(with_e)[:100]}; without: {unparse(no_e)[:100]}"))
+        else:
+            insts.append(R.undec(rid, "speed-formula", file, at.lineno, "speed formula not in modelled arithmetic"))
+    elif sp is None or bpm_var is None:
         insts.append(R.undec(rid, "speed-formula", file, fn.node.lineno, "speed lambda / reference bpm not found"))
     else:
         x = sp.args.args[0].arg
@@ -320,6 +468,9 @@ def rule_r3(ctx) -> List[R.Inst]:
                 all_ops = later + all_ops
     root, ops0 = unroll(cur) if cur is not None else (None, [])
     all_ops = ops0 + all_ops
+    colwise = _columnwise(fn, a)
+    if colwise is not None:
+        return _r3_columnwise(ctx, fn, file, rets[-1], colwise) + _r3_columns(M, rid)
     calls = [c for (nm_, c) in all_ops if isinstance(c, ast.Call)]
     extra_ops = [nm_ for (nm_, c) in all_ops if nm_ == "index" or (isinstance(c, ast.Call) and nm_ not in ("copy", "assign"))]
     if root is None or not unparse(root).endswith(".bpms.df"):
@@ -378,6 +529,85 @@ def rule_r3(ctx) -> List[R.Inst]:
         insts.append(R.viol(rid, "projection", file, (rets[-1] if rets else fn.node).lineno,
                             "the result must be the tempo frame projected onto the SV list's declared columns",
                             construct=unparse(rets[-1].value)[:160] if rets else ""))
+    return insts + _r3_columns(M, rid)
+
+
+def _columnwise(fn, a):
+    """pd.DataFrame({name: <formula> if name == "multiplier" else F[name] for name in <SV list>.df.columns}) ->
+    (loop variable, formula, frame expression F, iterable) — the result is built column by column instead of copy / store / project"""
+    if not (isinstance(a, ast.Call) and call_name(a) == "DataFrame" and len(a.args) == 1 and isinstance(a.args[0], ast.DictComp) and not a.keywords):
+        return None
+    dc = a.args[0]
+    if len(dc.generators) != 1 or dc.generators[0].ifs or not isinstance(dc.generators[0].target, ast.Name):
+        return None
+    v = dc.generators[0].target.id
+    if not (isinstance(dc.key, ast.Name) and dc.key.id == v and isinstance(dc.value, ast.IfExp)):
+        return None
+    t = dc.value.test
+    body, other = dc.value.body, dc.value.orelse
+    if isinstance(t, ast.Compare) and len(t.ops) == 1 and isinstance(t.ops[0], ast.NotEq):
+        body, other = other, body
+    elif not (isinstance(t, ast.Compare) and len(t.ops) == 1 and isinstance(t.ops[0], ast.Eq)):
+        return None
+    sides = [t.left, t.comparators[0]]
+    if not (any(isinstance(x, ast.Name) and x.id == v for x in sides) and any(isinstance(x, ast.Constant) and x.value == "multiplier" for x in sides)):
+        return None
+    if not (isinstance(other, ast.Subscript) and isinstance(other.slice, ast.Name) and other.slice.id == v):
+        return None
+    return v, body, other.value, dc.generators[0].iter
+
+
+def _r3_columnwise(ctx, fn, file, ret, cw) -> List[R.Inst]:
+    M = ctx.M
+    rid = "C19.R3"
+    v, formula, frame, it = cw
+    insts = []
+    ftxt = unparse(frame)
+    root = frame
+    while isinstance(root, ast.Call) and isinstance(root.func, ast.Attribute) and root.func.attr == "copy":
+        root = root.func.value
+    if unparse(root).endswith(".bpms.df"):
+        insts.append(R.ok(rid, "one-row-per-tempo", file, ret.lineno, idiom="every column is a column of the tempo frame (or computed from one): one row per tempo point, at its time"))
+    else:
+        insts.append(R.viol(rid, "one-row-per-tempo", file, ret.lineno,
+                            "normalisation must return one SV per tempo point at its time: the columns must come from the unfiltered tempo frame",
+                            construct=f"columns taken from {ftxt}"))
+    ref = None
+    for n in walk_no_nested(fn.node):
+        if isinstance(n, ast.Assign) and isinstance(n.targets[0], ast.Name) and any(
+                isinstance(c, ast.Call) and call_name(c) == "dominant_bpm" for c in ast.walk(n.value)):
+            ref = n.targets[0].id
+
+    def col_of(n):
+        if isinstance(n, ast.Attribute) and unparse(n.value) == ftxt:
+            return n.attr
+        if isinstance(n, ast.Subscript) and unparse(n.value) == ftxt and isinstance(n.slice, ast.Constant):
+            return n.slice.value
+        return None
+    if ref is None:
+        insts.append(R.undec(rid, "multiplier", file, fn.node.lineno, "reference bpm not found"))
+    else:
+        lf = lambda n: ("BPM" if col_of(n) == "bpm" else ("REF" if unparse(n) == ref else None))   # noqa: E731
+        r = sym.canon(formula, lf)
+        if r.same(sym.parse("REF / BPM")):
+            insts.append(R.ok(rid, "multiplier", file, formula.lineno, idiom="multiplier = reference / bpm  (multiplier * bpm = reference)"))
+        elif r.symbols() <= {"REF", "BPM"}:
+            insts.append(R.viol(rid, "multiplier", file, formula.lineno,
+                                "the multiplier times the tempo point's bpm must equal the reference bpm: multiplier = reference / bpm",
+                                construct=f"multiplier = {unparse(formula)}"))
+        else:
+            insts.append(R.undec(rid, "multiplier", file, formula.lineno, "multiplier formula not in modelled arithmetic"))
+    if ".df.columns" in unparse(it):
+        insts.append(R.ok(rid, "projection", file, ret.lineno, idiom="one column per declared column of the SV list (dict comprehension over <SV list>.df.columns)"))
+    else:
+        insts.append(R.viol(rid, "projection", file, ret.lineno,
+                            "the result must be the tempo frame projected onto the SV list's declared columns",
+                            construct=unparse(ret.value)[:160]))
+    return insts
+
+
+def _r3_columns(M, rid) -> List[R.Inst]:
+    insts = []
     for game, chart in (("osu", "reamber.osu.OsuMap.OsuMap"), ("qua", "reamber.quaver.QuaMap.QuaMap")):
         slots = M.map_slots(chart)
         sv_cols = set(M.list_columns(slots["svs"]))
